@@ -2,6 +2,7 @@
    Statements only.  Proofs: Proofs/RunnerTr.v (teardown discipline of the serial runner),
    Proofs/RunnerP.v (a task starts only after its setup-tasks finished: that is C01 on the setup edge). *)
 From DoitV Require Import Base Dispatch Runner Parallel DispatchP DispatchInv RunnerP RunnerTr ParallelP ParallelTdP.
+From DoitV Require Import LazyP LazyParP ParallelTdProcP.
 Open Scope N_scope.
 
 (* serial runner: however the loop ended (all done, stopped by a failure, cycle error, interrupt),
@@ -61,10 +62,9 @@ Proof.
 Qed.
 Print Assumptions C11_setup_before_task_parallel.
 
-(* NOT PROVED: the per-worker teardown discipline of the process flavour (each worker process runs the
-   teardowns of the tasks IT executed when it receives the terminating job) and the laziness of
-   setup-tasks (a setup-task is processed only on behalf of a task that is going to run) -- correspondence
-   + oracle. *)
+(* The per-worker teardown discipline of the process flavour and the laziness of setup-tasks are proved at the
+   end of this file (added later).  Still NOT PROVED: that on the normal path every worker does receive its
+   terminating job (liveness of the parallel model) -- correspondence + oracle. *)
 
 Definition ex11 (n : name) : option task :=
   match n with
@@ -77,3 +77,161 @@ Example C11_nonvacuous :
   = [EGetStatus 1; EExecute 1; ERemove 1; EFailure 1 0; EGetStatus 0; ERemove 0; EFailure 0 2;
      EGetStatus 2; EExecute 2; ESave 2; ESuccess 2; EClose; ETeardown 2; ETeardown 1].
 Proof. vm_compute. reflexivity. Qed.
+
+(* ===== laziness of setup-tasks (Proofs/LazyP.v, LazyParP.v) and the per-worker teardown of the process flavour
+   (Proofs/ParallelTdProcP.v), by sub-agent.  `wanted selection pre s`: there is a chain from a selected task to s made
+   only of tasks WITHOUT a final report so far, through task_dep / calc_dep edges (declared or returned by calc_dep
+   tasks) and setup edges r -> x of tasks r that were already status-checked (checked without a report = the verdict
+   was `run`).  Not covered: that r really executes afterwards -- another setup-task of r may fail, then r is reported
+   unmet and s has run for nothing (KNOWN finding c11:setup-task-for-doomed-requirer, Example C11_lazy_doomed_requirer). ===== *)
+(* ---- laziness of setup-tasks ---- *)
+Theorem C11_setup_lazy :
+  forall tasks wake_rank calc_rank continue_ always fuel selection pre s post,
+    fst (run_serial tasks wake_rank calc_rank continue_ always fuel selection) = pre ++ EExecute s :: post ->
+    wanted tasks selection pre s.
+Proof. intros tasks wake_rank calc_rank continue_ always fuel selection. exact (serial_lazy tasks wake_rank calc_rank continue_ always selection fuel). Qed.
+Print Assumptions C11_setup_lazy.
+
+Theorem C11_setup_only_for_running_task :
+  forall tasks wake_rank calc_rank continue_ always fuel selection pre s post,
+    fst (run_serial tasks wake_rank calc_rank continue_ always fuel selection) = pre ++ EExecute s :: post ->
+    ~ In s selection -> (forall p, ~ hdep tasks p s) ->
+    exists r, In s (t_setup (get_task tasks r)) /\ In (EGetStatus r) pre /\ ~ finished_in pre r /\
+              wanted tasks selection pre r.
+Proof. intros tasks wake_rank calc_rank continue_ always fuel selection. exact (serial_lazy_setup_only tasks wake_rank calc_rank continue_ always selection fuel). Qed.
+Print Assumptions C11_setup_only_for_running_task.
+
+
+Theorem C11_setup_never_for_uptodate_task :
+  forall tasks wake_rank calc_rank continue_ always fuel selection pre s post,
+    let tr := fst (run_serial tasks wake_rank calc_rank continue_ always fuel selection) in
+    tr = pre ++ EExecute s :: post ->
+    ~ In s selection -> (forall p, ~ hdep tasks p s) ->
+    exists r, In s (t_setup (get_task tasks r)) /\ In (EGetStatus r) pre /\ ~ finished_in pre r /\
+              ~ In (ESkipUpToDate r) tr.
+Proof. intros tasks wake_rank calc_rank continue_ always fuel selection. exact (serial_lazy_not_uptodate tasks wake_rank calc_rank continue_ always selection fuel). Qed.
+Print Assumptions C11_setup_never_for_uptodate_task.
+
+Theorem C11_setup_lazy_parallel :
+  forall tasks wake_rank calc_rank continue_ always proc fuel nprocs sched selection pre s w post,
+    fst (run_parallel tasks wake_rank calc_rank continue_ always proc fuel nprocs sched selection) = pre ++ PStart s w :: post ->
+    wanted tasks selection (proj pre) s.
+Proof. intros tasks wake_rank calc_rank continue_ always proc fuel nprocs sched selection. exact (parallel_lazy tasks wake_rank calc_rank continue_ always proc selection fuel nprocs sched). Qed.
+Print Assumptions C11_setup_lazy_parallel.
+
+Theorem C11_setup_only_for_running_task_parallel :
+  forall tasks wake_rank calc_rank continue_ always proc fuel nprocs sched selection pre s w post,
+    fst (run_parallel tasks wake_rank calc_rank continue_ always proc fuel nprocs sched selection) = pre ++ PStart s w :: post ->
+    ~ In s selection -> (forall p, ~ hdep tasks p s) ->
+    exists r, In s (t_setup (get_task tasks r)) /\ In (EGetStatus r) (proj pre) /\ ~ finished_in (proj pre) r /\
+              wanted tasks selection (proj pre) r.
+Proof. intros tasks wake_rank calc_rank continue_ always proc fuel nprocs sched selection. exact (parallel_lazy_setup_only tasks wake_rank calc_rank continue_ always proc selection fuel nprocs sched). Qed.
+Print Assumptions C11_setup_only_for_running_task_parallel.
+
+
+Theorem C11_setup_never_for_uptodate_task_parallel :
+  forall tasks wake_rank calc_rank continue_ always proc fuel nprocs sched selection pre s w post,
+    let log := fst (run_parallel tasks wake_rank calc_rank continue_ always proc fuel nprocs sched selection) in
+    log = pre ++ PStart s w :: post ->
+    ~ In s selection -> (forall p, ~ hdep tasks p s) ->
+    exists r, In s (t_setup (get_task tasks r)) /\ In (EGetStatus r) (proj pre) /\ ~ finished_in (proj pre) r /\
+              ~ In (ESkipUpToDate r) (proj log).
+Proof. intros tasks wake_rank calc_rank continue_ always proc fuel nprocs sched selection. exact (parallel_lazy_not_uptodate tasks wake_rank calc_rank continue_ always proc selection fuel nprocs sched). Qed.
+Print Assumptions C11_setup_never_for_uptodate_task_parallel.
+
+
+(* ... not even status-checked (the status check runs the task's uptodate code) *)
+Theorem C11_setup_lazy_check :
+  forall tasks wake_rank calc_rank continue_ always fuel selection pre s post,
+    fst (run_serial tasks wake_rank calc_rank continue_ always fuel selection) = pre ++ EGetStatus s :: post ->
+    wanted tasks selection pre s.
+Proof. intros tasks wake_rank calc_rank continue_ always fuel selection. exact (serial_lazy_check tasks wake_rank calc_rank continue_ always selection fuel). Qed.
+Print Assumptions C11_setup_lazy_check.
+
+Theorem C11_setup_lazy_check_parallel :
+  forall tasks wake_rank calc_rank continue_ always proc fuel nprocs sched selection pre s post,
+    proj (fst (run_parallel tasks wake_rank calc_rank continue_ always proc fuel nprocs sched selection)) = pre ++ EGetStatus s :: post ->
+    wanted tasks selection pre s.
+Proof. intros tasks wake_rank calc_rank continue_ always proc fuel nprocs sched selection. exact (parallel_lazy_check tasks wake_rank calc_rank continue_ always proc selection fuel nprocs sched). Qed.
+Print Assumptions C11_setup_lazy_check_parallel.
+
+(* non-vacuity: task 0 requires setup-task 1 (neither selected nor a task_dep / calc_dep of anything) *)
+Definition ex11l (ck : check) (ign : bool) (deps : list name) (n : name) : option task :=
+  if n =? 0 then Some (Build_task deps [1] [] false ign ck false OOk [] [] [])
+  else if n =? 1 then Some (Build_task [] [] [] true false CkRun false OOk [] [] [])
+  else if n =? 2 then Some (Build_task [] [] [] false false CkRun false OFail [] [] [])
+  else None.
+Lemma ex11l_nohdep ck ign deps : ~ In 1 deps -> forall p, ~ hdep (ex11l ck ign deps) p 1.
+Proof.
+  intros Hd p [H|(c & Hc & _)].
+  - unfold get_task, ex11l in H. destruct (p =? 0); [simpl in H; rewrite app_nil_r in H; auto|].
+    destruct (p =? 1); [simpl in H; auto|]. destruct (p =? 2); simpl in H; auto.
+  - induction Hc as [c Hc|c c' _ IH _]; auto.
+    unfold get_task, ex11l in Hc. destruct (p =? 0); [simpl in Hc; auto|].
+    destruct (p =? 1); [simpl in Hc; auto|]. destruct (p =? 2); simpl in Hc; auto.
+Qed.
+(* 0 is going to run: its setup-task 1 is executed, after 0's status check and before any report about 0 *)
+Example C11_lazy_nonvacuous :
+  exists pre post,
+    fst (run_serial (ex11l CkRun false []) (fun _ _ => 0) (fun _ => 0) true false 100 [0]) = pre ++ EExecute 1 :: post /\
+    ~ In 1 [0] /\ (forall p, ~ hdep (ex11l CkRun false []) p 1) /\ pre = [EGetStatus 0; EGetStatus 1].
+Proof.
+  exists [EGetStatus 0; EGetStatus 1]. eexists. split; [vm_compute; reflexivity|].
+  split; [intros [H|[]]; discriminate|]. split; [apply ex11l_nohdep; intros []|reflexivity].
+Qed.
+(* 0 up-to-date / ignored / with a failed task_dep (unmet) / with a status-check error: 1 is never executed *)
+Example C11_lazy_not_for_skipped :
+  map (fun tb => existsb (fun e => match e with EExecute 1 => true | _ => false end)
+                   (fst (run_serial tb (fun _ _ => 0) (fun _ => 0) true false 100 [0])))
+      [ex11l CkUpToDate false []; ex11l CkRun true []; ex11l CkRun false [2]; ex11l CkError false []; ex11l CkRun false []]
+  = [false; false; false; false; true].
+Proof. vm_compute. reflexivity. Qed.
+Example C11_lazy_not_for_skipped_parallel :
+  map (fun tb => existsb (fun e => match e with PStart 1 _ => true | _ => false end)
+                   (fst (run_parallel tb (fun _ _ => 0) (fun _ => 0) true false true 100 2 [1;0;1;1;0;2;1]%nat [0])))
+      [ex11l CkUpToDate false []; ex11l CkRun true []; ex11l CkRun false [2]; ex11l CkError false []; ex11l CkRun false []]
+  = [false; false; false; false; true].
+Proof. vm_compute. reflexivity. Qed.
+
+(* KNOWN BEHAVIOUR (model = code, confirmed on the real doit): the requiring task only has to be in its `run` phase
+   when the setup-task starts.  Task 0 requires the setup-tasks [2; 1]; 2 was selected before and has already
+   failed when 0 goes through its status check (verdict run): setup-task 1 is still executed, then 0 is reported
+   with an unmet dependency.  Consistent with the theorems (0 has no report when 1 starts), but 1 runs on behalf of
+   a task that can no longer execute. *)
+Definition ex11d (n : name) : option task :=
+  if n =? 0 then Some (Build_task [] [2; 1] [] false false CkRun false OOk [] [] [])
+  else if n =? 1 then Some (Build_task [] [] [] false false CkRun false OOk [] [] [])
+  else if n =? 2 then Some (Build_task [] [] [] false false CkRun false OFail [] [] [])
+  else None.
+Example C11_lazy_doomed_requirer :
+  fst (run_serial ex11d (fun _ _ => 0) (fun _ => 0) true false 100 [2; 0])
+  = [EGetStatus 2; EExecute 2; ERemove 2; EFailure 2 0; EGetStatus 0; EGetStatus 1; EExecute 1; ESave 1; ESuccess 1;
+     ERemove 0; EFailure 0 2; EClose].
+Proof. vm_compute. reflexivity. Qed.
+
+(* ---- per-worker teardown discipline of the process flavour ---- *)
+Theorem C11_teardown_process_per_worker :
+  forall tasks wake_rank calc_rank continue_ always fuel nprocs sched selection w,
+  wshape (has_td tasks) w (fst (run_parallel tasks wake_rank calc_rank continue_ always true fuel nprocs sched selection)).
+Proof. exact proc_teardown_per_worker. Qed.
+Print Assumptions C11_teardown_process_per_worker.
+
+Theorem C11_teardown_process_owner :
+  forall tasks wake_rank calc_rank continue_ always fuel nprocs sched selection k w,
+  let log := fst (run_parallel tasks wake_rank calc_rank continue_ always true fuel nprocs sched selection) in
+  In (PTdRun k w) log -> In (PStart k w) log /\ has_td tasks k = true.
+Proof. exact proc_teardown_owner. Qed.
+Print Assumptions C11_teardown_process_owner.
+
+Theorem C11_teardown_process_once :
+  forall tasks wake_rank calc_rank continue_ always fuel nprocs sched selection,
+  NoDup (fwd (fst (run_parallel tasks wake_rank calc_rank continue_ always true fuel nprocs sched selection))).
+Proof. exact proc_teardown_once. Qed.
+Print Assumptions C11_teardown_process_once.
+
+Theorem C11_teardown_process_reports :
+  forall tasks wake_rank calc_rank continue_ always fuel nprocs sched selection,
+  let res := run_parallel tasks wake_rank calc_rank continue_ always true fuel nprocs sched selection in
+  exists rest, fwd (fst res) = tdm (proj (fst res)) ++ rest /\ (~ In (snd res) [3; 4; 98; 99] -> rest = []).
+Proof. exact proc_teardown_reports. Qed.
+Print Assumptions C11_teardown_process_reports.
